@@ -45,6 +45,12 @@ pub struct Case {
     /// store faults armed on both sides before the call: (index of the fallible store call, status byte)
     #[serde(default)]
     pub faults: Vec<(u8, u8)>,
+    /// makeCredential: the hmac-secret extension input (0 absent, 1 false, 2 true), next to or without a PRF input
+    #[serde(default)]
+    pub hmac_in: u8,
+    /// transports the authenticator was configured with: 0 the default, 1 an empty list, 2 usb, 3 internal + hybrid
+    #[serde(default)]
+    pub transports: u8,
 }
 
 fn rp_name(c: &Case, i: u8) -> String {
@@ -76,6 +82,13 @@ fn build(c: &Case) -> (Authenticator<RefStore, ScriptedUv>, RefStore, ScriptedUv
     store.set_faults(c.faults.iter().map(|(i, code)| ((*i % 4) as usize, *code)).collect());
     let uv = ScriptedUv::new(c.script.clone());
     let auth = cer::build_authenticator(store.clone(), uv.clone(), &AuthCfg { counter: c.counter_cfg, hmac: c.hmac, ..Default::default() });
+    use passkey_types::webauthn::AuthenticatorTransport as T;
+    let auth = match c.transports % 4 {
+        0 => auth,
+        1 => auth.transports(vec![]),
+        2 => auth.transports(vec![T::Usb]),
+        _ => auth.transports(vec![T::Internal, T::Hybrid]),
+    };
     (auth, store, uv)
 }
 
@@ -114,7 +127,7 @@ fn mc_request(c: &Case) -> make_credential::Request {
         user: passkey_types::webauthn::PublicKeyCredentialUserEntity { id: b"c18-new-user".to_vec().into(), display_name: "d".into(), name: "n".into() },
         pub_key_cred_params: cer::params(if c.algs_supported { &[-257, -7] } else { &[-257] }),
         exclude_list: list(c),
-        extensions: (c.prf > 0).then(|| make_credential::ExtensionInputs { hmac_secret: None, hmac_secret_mc: None, prf: Some(salts(c.prf)) }),
+        extensions: (c.prf > 0 || c.hmac_in % 3 > 0).then(|| make_credential::ExtensionInputs { hmac_secret: [None, Some(false), Some(true)][c.hmac_in as usize % 3], hmac_secret_mc: None, prf: (c.prf > 0).then(|| salts(c.prf)) }),
         options: make_credential::Options { rk: c.rk, up: c.up, uv: c.uv },
         pin_auth: c.pin_auth.then(|| vec![1u8; 16].into()),
         pin_protocol: c.pin_auth.then_some(1),
@@ -290,15 +303,17 @@ fn strategy() -> impl Strategy<Value = Case> {
         script,
         (0u8..2, proptest::bool::weighted(0.2), proptest::bool::weighted(0.85), any::<bool>(), proptest::bool::weighted(0.85), proptest::bool::weighted(0.15), 0u8..7, any::<u8>(), 0u8..3),
     )
-        .prop_map(|((op, hmac, counter_cfg, disc), contents, script, (rp, rk, up, uv, algs_supported, pin_auth, list, list_k, prf))| Case { op, hmac, counter_cfg, disc, contents, script, rp, rk, up, uv, algs_supported, pin_auth, list, list_k, prf, rp0: None, faults: vec![] })
+        .prop_map(|((op, hmac, counter_cfg, disc), contents, script, (rp, rk, up, uv, algs_supported, pin_auth, list, list_k, prf))| Case { op, hmac, counter_cfg, disc, contents, script, rp, rk, up, uv, algs_supported, pin_auth, list, list_k, prf, rp0: None, faults: vec![], hmac_in: 0, transports: 0 })
         .prop_flat_map(|c| {
             // RP IDs of any shape and length (the API takes any string), and store calls failing with any status byte
             let ch = prop_oneof![6 => "[a-z0-9.-]", 2 => "[\u{80}-\u{7ff}]", 1 => "[\u{800}-\u{ffff}]", 1 => "[\u{10000}-\u{10ffff}]"];
             let rp0 = proptest::option::weighted(0.35, proptest::collection::vec(ch, 0..70).prop_map(|v| v.concat()));
             let faults = prop_oneof![3 => Just(vec![]), 2 => proptest::collection::vec((0u8..4, prop_oneof![3 => any::<u8>(), 1 => Just(0x2Eu8), 1 => Just(0x38), 1 => Just(0x01)]), 1..3)];
-            (Just(c), rp0, faults).prop_map(|(mut c, rp0, faults)| {
+            (Just(c), rp0, faults, prop_oneof![2 => Just(0u8), 1 => 1u8..3], prop_oneof![2 => Just(0u8), 1 => 1u8..4]).prop_map(|(mut c, rp0, faults, hmac_in, transports)| {
                 c.rp0 = rp0;
                 c.faults = faults;
+                c.hmac_in = hmac_in;
+                c.transports = transports;
                 c
             })
         })
@@ -326,7 +341,7 @@ fn body_for(case: Case) -> (Option<usize>, Box<dyn FnMut() -> Body + Send>) {
 
 pub fn worker(args: &[String]) -> i32 {
     if args[0] == "c18one" {
-        let Ok(case) = serde_json::from_str::<Case>(&args[1]) else { return 2 };
+        let Ok(case) = serde_json::from_str::<Case>(&hostile::one_arg(&args[1])) else { return 2 };
         let (len, body) = body_for(case);
         return hostile::worker_one(len, body);
     }
@@ -338,7 +353,7 @@ pub fn worker(args: &[String]) -> i32 {
 }
 
 fn fails(case: &Case) -> Option<String> {
-    match hostile::run_one("c18", &serde_json::to_string(case).unwrap()) {
+    match hostile::run_one_confirmed("c18", &serde_json::to_string(case).unwrap()) {
         Ok(r) if r.ok => None,
         Ok(r) => Some(r.msg),
         Err(how) if how.starts_with(hostile::STALL) => Some(how),
@@ -353,6 +368,8 @@ fn minimise(case: &Case) -> Case {
         Box::new(|c| Case { faults: vec![], ..c.clone() }),
         Box::new(|c| Case { faults: c.faults.iter().take(1).cloned().collect(), ..c.clone() }),
         Box::new(|c| Case { rp0: None, ..c.clone() }),
+        Box::new(|c| Case { hmac_in: 0, ..c.clone() }),
+        Box::new(|c| Case { transports: 0, ..c.clone() }),
         Box::new(|c| Case { contents: vec![], ..c.clone() }),
         Box::new(|c| Case { contents: c.contents.iter().take(1).cloned().collect(), ..c.clone() }),
         Box::new(|c| Case { prf: 0, ..c.clone() }),
@@ -375,7 +392,7 @@ fn minimise(case: &Case) -> Case {
 }
 
 pub fn run(ctx: &mut Ctx) {
-    ctx.rule = "requests for getInfo / makeCredential / getAssertion (valid and failing: unsupported algorithms, rk on a non-discoverable store, pin-auth, up=false, denied or failing user validation, allow/exclude lists that are absent/empty/miss/hit/foreign, PRF requests) with generated store contents (0-4 credentials over two RPs, counters incl. max, with/without user handle and PRF secrets), store capability, hmac-secret configuration and user-validation behaviour, RP IDs that are arbitrary text of 0-70 characters (ASCII and 2/3/4-byte characters), and store calls that fail with any status byte (both sides armed alike); two authenticators are built from the same description, one is driven through <Authenticator as Ctap2Api>, the other through the direct methods, each case in an isolated worker with an 8 MiB stack and CPU watchdog. Non-trivial = makeCredential / getAssertion pairs; distinct by case.".into();
+    ctx.rule = "requests for getInfo / makeCredential / getAssertion (valid and failing: unsupported algorithms, rk on a non-discoverable store, pin-auth, up=false, denied or failing user validation, allow/exclude lists that are absent/empty/miss/hit/foreign, PRF requests, an explicit hmac-secret input of false / true with or without a PRF input) on authenticators configured with the default / an empty / other transport lists, with generated store contents (0-4 credentials over two RPs, counters incl. max, with/without user handle and PRF secrets), store capability, hmac-secret configuration and user-validation behaviour, RP IDs that are arbitrary text of 0-70 characters (ASCII and 2/3/4-byte characters), and store calls that fail with any status byte (both sides armed alike); two authenticators are built from the same description, one is driven through <Authenticator as Ctap2Api>, the other through the direct methods, each case in an isolated worker with an 8 MiB stack and CPU watchdog. Non-trivial = makeCredential / getAssertion pairs; distinct by case.".into();
     ctx.assumptions = vec![
         "results are compared by status byte (errors), by authenticator data / selected credential / user entity / extension outputs and by signature validity under the stored key (successes; new keys and ids are random so registrations are compared by shape), and by the abstract store state, the user-validation call log and the sequence of store calls".into(),
         "termination: a worker that dies or exceeds 10 s of CPU is attributed to the case it had started".into(),
